@@ -1,0 +1,23 @@
+//go:build verif
+// +build verif
+
+package fuse
+
+import "github.com/jacobsa/fuse/fuseops"
+
+// VerifINodeGenerator gives access to the inode number generator of the mutable mount on its own.
+type VerifINodeGenerator struct{ g iNodeGenerator }
+
+// VerifNewINodeGenerator builds a generator the way the mutable mount does.
+func VerifNewINodeGenerator() *VerifINodeGenerator {
+	return &VerifINodeGenerator{g: iNodeGenerator{highestInode: firstINode, freeInodes: make([]fuseops.InodeID, 0, 65536)}}
+}
+
+// Base is the number the generator starts from.
+func (v *VerifINodeGenerator) Base() fuseops.InodeID { return firstINode }
+
+// Alloc hands out an inode number.
+func (v *VerifINodeGenerator) Alloc() fuseops.InodeID { return v.g.allocINode() }
+
+// Free gives an inode number back.
+func (v *VerifINodeGenerator) Free(i fuseops.InodeID) { v.g.freeINode(i) }
